@@ -1061,9 +1061,39 @@ fn derive_dot_expression(
             }
         }
 
-        // Grouped expression - unwrap and recurse
-        (_, Expression::Grouped(expr, _)) => {
+        // Grouped expression holding a literal key - unwrap and recurse
+        (_, Expression::Grouped(expr, _))
+            if matches!(
+                expr.as_ref(),
+                Expression::Simple(Value::Str(_))
+                    | Expression::Simple(Value::Int(_))
+                    | Expression::Grouped(_, _)
+            ) =>
+        {
             derive_dot_expression(pos, left_shape, expr.as_ref(), symbol_table)
+        }
+
+        // Any other grouped expression is a computed key. We know its type
+        // but not its value so the selected shape is unconstrained.
+        (_, Expression::Grouped(expr, _)) => {
+            let key_shape = expr.derive_shape(symbol_table);
+            match (left_shape, &key_shape) {
+                (_, Shape::TypeErr(_, _)) => key_shape,
+                (Shape::TypeErr(_, _), _) => left_shape.clone(),
+                (Shape::List(lshape), Shape::Int(_)) => Shape::Narrowed(lshape.clone()),
+                (Shape::List(_), Shape::Str(_)) => Shape::TypeErr(
+                    pos.clone(),
+                    "Lists cannot be accessed by field name".to_owned(),
+                ),
+                (Shape::Tuple(_), Shape::Int(_)) => Shape::TypeErr(
+                    pos.clone(),
+                    "Tuples cannot be indexed by integer".to_owned(),
+                ),
+                _ => Shape::Narrowed(NarrowedShape {
+                    pos: pos.clone(),
+                    types: NarrowingShape::Any,
+                }),
+            }
         }
 
         // Resolved import - treat as a tuple of exported bindings
